@@ -4,7 +4,7 @@
 (* growth, sequence assembly and terminal-extension complementing.  Any still  *)
 (* available k-mer may be the next seed, which covers every MPHF slot order.   *)
 (* Checked against the declarative Dbg validity for EVERY read set in scope.   *)
-EXTENDS Dbg, TLC, Json, SequencesExt
+EXTENDS ExportRules, TLC, Json
 
 CONSTANTS K, Stranded, Mode, Thr, Inputs, Dump
 VARIABLES inp, T, avail, nodes, pc, seed, cur, dir, path, lpath, lext
@@ -94,6 +94,17 @@ AvailShrinks == [][avail' \subseteq avail]_vars
 LinksOK == (pc = "done" /\ Closed(K, Stranded, T)) =>
              /\ Links(K, Stranded, NodeSeq) = ObsLinks(K, Stranded, inp, DOMAIN T)
              /\ SymmetricGraph(K, Stranded, NodeSeq)
+
+\* the exports of the finished graph (C20): the GFA rule writes every adjacency exactly once (palindromic nodes apart) and
+\* nothing else; the JSON links array is well formed and lists every right-going edge once
+ExportOK == pc = "done" =>
+  LET g == NodeSeq
+      lines == GfaAll(K, Stranded, g, TRUE)
+      J[n \in 0..Len(g)] == IF n = 0 THEN <<<<>>, FALSE>>
+                            ELSE LET v == JsonVisit(K, Stranded, g, n, J[n - 1][2], TRUE) IN <<J[n - 1][1] \o v[1], v[2]>>
+      toks == J[Len(g)][1]
+  IN /\ GfaNoInvented(K, Stranded, g, lines) /\ GfaComplete(K, Stranded, g, lines) /\ GfaOnce(K, Stranded, g, lines)
+     /\ WellFormedArray(toks) /\ JsonLinksExact(K, Stranded, g, toks)
 
 TableRows == LET ks == SetToSeq(DOMAIN T) IN
              [i \in 1..Len(ks) |-> [k |-> ks[i], l |-> SortSet(T[ks[i]].l), r |-> SortSet(T[ks[i]].r), d |-> T[ks[i]].d]]
